@@ -110,7 +110,7 @@ pub fn suites() -> Vec<Suite> {
             head_len: HEAD_LEN,
             op_len: OP_LEN,
             max_ops: 30,
-            quick_cases: 5_000,
+            quick_cases: 20_000,
             thorough_cases: 400_000,
             run,
             direct: Some(direct_with::<C04Oracle>),
@@ -122,7 +122,7 @@ pub fn suites() -> Vec<Suite> {
             head_len: HEAD_LEN,
             op_len: OP_LEN,
             max_ops: 30,
-            quick_cases: 3_000,
+            quick_cases: 10_000,
             thorough_cases: 200_000,
             run: run_hostile,
             direct: Some(direct_with::<C04Oracle>),
